@@ -19,7 +19,7 @@ CONSTANTS
   MONT_A <- MONT_A_29
   APLUS2_OVER_FOUR <- APLUS2_OVER_FOUR_29
   PAIRALL = FALSE
-  QUICK = FALSE
+  QUICK = TRUE
 INIT Init
 NEXT Next
 INVARIANT Inv
